@@ -715,13 +715,14 @@ Record fmeta := mkfmeta {
 Definition meta_name := mkname ns_meta (str "file").
 Definition zero_hashout := mkhashout 0 [].
 
-(* after the repair the hash element is left out when no hash is set *)
+(* after the repairs the hash element is left out when no hash is set and the
+   date is written in UTC *)
 Definition fmeta_tr (o : oracles) (v : fmeta) : res (list tree) :=
   bind (if N.eqb (ho_hash (fm_hash v)) 0 && is_nil (ho_out (fm_hash v)) then Ok []
         else rmap (fun t => [t]) (hashout_tree (fm_hash v))) (fun h =>
   one (Elem meta_name []
          ([leaf (str "media-type") (fm_media v); leaf (str "name") (fm_name v);
-           leaf (str "date") (o_tfmt o L_zone_nano (fm_date v));
+           leaf (str "date") (o_tfmt o L_utc_nano (fm_date v));
            leaf (str "size") (dec (fm_size v))] ++ h ++
           [leaf (str "width") (dec (fm_width v)); leaf (str "height") (dec (fm_height v));
            leaf (str "length") (dec (fm_length v))]))).
